@@ -11,7 +11,10 @@ PROP_FILE = "Properties/C09.v"
 
 GROUPS = ["photon_collection", "charge_generation", "charge_collection", "charge_transfer",
           "charge_measurement", "readout_electronics", "data_processing"]
-CLASSES = ["ValueError", "KeyError", "ZeroDivisionError", "RuntimeError", "ProbeError"]
+CLASSES = ["ValueError", "KeyError", "ZeroDivisionError", "RuntimeError", "ProbeError",
+           # round 2: two Exception subclasses with a special role and three classes that `except Exception` does not see
+           "StopIteration", "KeyboardInterrupt", "FloatingPointError", "SystemExit", "BaseProbeError"]
+ENTRIES = ["run_mode", "run_file", "cli", "method", "deprecated"]
 FUNC = "verif_probes_c09.node"
 T_KEY = "detector.environment.temperature"
 Q_KEY = "detector.characteristics.quantum_efficiency"
@@ -19,10 +22,16 @@ Q_VALUES = [0.25, 0.5, 0.75, 1.0]
 TAGS = ["pa", "qb", "rc", "sd"]
 
 CLAUSE = {1: "result_returned", 2: "class_changed", 3: "message_lost", 4: "identity_missing",
-          5: "parameters_missing", 6: "calls_after_fault", 7: "parallel_not_surfaced", 8: "calibration_not_surfaced"}
+          5: "parameters_missing", 6: "calls_after_fault", 7: "parallel_not_surfaced", 8: "calibration_not_surfaced",
+          9: "original_lost_under_cleanup_failure", 10: "context_lost", 11: "capture_failure_not_surfaced"}
 
 TRUSTED = [
-    "translator/c09.py (exception handlers of the anchored functions: which ones end in a bare re-raise)",
+    "translator/c09.py (for the 41 functions on the paths from the entry points to a model call: every except handler, "
+    "finally block and with item as a shape; which functions refer to which; the list of context managers taken as "
+    "non-suppressing: standard library, numpy, dask, tqdm, xarray)",
+    "the paths themselves (Model/Failure.v all_entry_paths: entry point x mode -> functions) are hand-written from the "
+    "source; the translator checks that every function exists and refers to the next one; calls that go through pygmo/dask "
+    "(lib_edges) are taken on trust",
     "correspondence harness: harness/props/c09.py generators, harness/drivers/c09.py, probes/verif_probes_c09.py "
     "(run identity read from detector.environment.temperature / quantum_efficiency / a published run tag)",
     "Section hypotheses, sampled at every position but not proved: dask `compute` forces every cell and surfaces "
@@ -60,111 +69,256 @@ def first_enabled(groups):
     raise ValueError
 
 
-def make_runs(groups, params):
-    """The runs of a product-mode observation, in order, with the (key, repr(value)) of each."""
+DEFAULTS = {"t": 200.0, "q": 1.0, "arg": "?"}     # what a run sees for a parameter that it does not sweep
+
+
+def make_runs(groups, params, pmode="product"):
+    """The runs of an observation, in order, with the (key, repr(value)) of each.
+    product: the cartesian product of the value lists (first parameter outermost);
+    sequential: one parameter after the other, the others staying at the configured values."""
     g0, m0 = first_enabled(groups)
     keys = {"t": T_KEY, "q": Q_KEY, "arg": f"pipeline.{g0}.{m0}.arguments.arg"}
+    field = {"t": "t", "q": "q", "arg": "tag"}
     runs = []
+    if pmode == "sequential":
+        for p in params:
+            for v in p["values"]:
+                run = dict(id=len(runs), t=None, q=None, tag=None, params=[[keys[p["kind"]], repr(v)]])
+                for other in params:
+                    run[field[other["kind"]]] = DEFAULTS[other["kind"]]
+                run[field[p["kind"]]] = v
+                runs.append(run)
+        return runs
     for i, combo in enumerate(itertools.product(*[p["values"] for p in params])):
         run = dict(id=i, t=None, q=None, tag=None, params=[])
         for p, v in zip(params, combo):
-            run["tag" if p["kind"] == "arg" else p["kind"]] = v
+            run[field[p["kind"]]] = v
             run["params"].append([keys[p["kind"]], repr(v)])
         runs.append(run)
     return runs
 
 
-def gen_params(r, mode):
+def gen_params(r, mode, entry="run_mode", pmode="product"):
     if mode == "exposure":
         return []
+    if pmode == "sequential":
+        kinds = r.choice([["t", "q"], ["q", "t"], ["t", "arg"], ["arg", "q"], ["t", "q", "arg"]] if entry != "deprecated"
+                         else [["t", "q"], ["q", "t"]])
+        sizes = r.choice([[2, 2], [1, 2], [2, 1], [3, 1]]) if len(kinds) == 2 else [1, 2, 1]
+        return _param_values(r, kinds, sizes, distinct_from_defaults=True)
+    if entry == "deprecated":
+        kinds = r.choice([["t"], ["t"], ["t", "q"], ["q", "t"], ["q"]])
+        sizes = [r.randrange(2, 5)] if len(kinds) == 1 else [2, 2]
+        return _param_values(r, kinds, sizes)
     if mode == "obs_dask":
         kinds = r.choice([["t"], ["t"], ["t", "q"], ["q", "t"]])
     else:
-        kinds = r.choice([["t"], ["t", "q"], ["arg"], ["arg", "t"], ["q", "t"], ["t", "arg"]])
-    sizes = [r.randrange(2, 5)] if len(kinds) == 1 else r.choice([[2, 2], [2, 2], [1, 3], [3, 1], [2, 1]])
+        # up to three nested sweeps
+        kinds = r.choice([["t"], ["t", "q"], ["arg"], ["arg", "t"], ["q", "t"], ["t", "arg"], ["t", "q", "arg"], ["arg", "t", "q"]])
+    if len(kinds) == 3:
+        sizes = r.choice([[2, 1, 2], [1, 2, 2], [2, 2, 1], [2, 2, 2]])
+    else:
+        sizes = [r.randrange(2, 5)] if len(kinds) == 1 else r.choice([[2, 2], [2, 2], [1, 3], [3, 1], [2, 1]])
+    return _param_values(r, kinds, sizes)
+
+
+def _param_values(r, kinds, sizes, distinct_from_defaults=False):
     params = []
     for k, n in zip(kinds, sizes):
         if k == "t":
-            base = r.randrange(100, 200)
+            base = r.randrange(100, 170)
             vals = [base + 7 * i for i in range(n)]
         elif k == "q":
-            vals = r.sample(Q_VALUES, n)
+            vals = r.sample([q for q in Q_VALUES if not (distinct_from_defaults and q == DEFAULTS["q"])], n)
         else:
             vals = r.sample(TAGS, n)
         params.append(dict(kind=k, values=vals))
     return params
 
 
-def scenario(r, mode, max_positions):
+def scenario(r, mode, max_positions, entry="run_mode"):
     while True:
         groups = gen_pipeline(r, max_models=6 if mode == "exposure" else 5)
         nsteps = r.randrange(1, 4)
-        params = gen_params(r, mode)
-        runs = make_runs(groups, params) if params else [dict(id=0, t=None, q=None, tag=None, params=[])]
+        # the `sequential` parameter mode under dask is C05's (a known defect there): sequential execution only
+        pmode = "sequential" if (mode == "obs_seq" and r.random() < 0.25) else "product"
+        params = gen_params(r, mode, entry, pmode)
+        runs = make_runs(groups, params, pmode) if params else [dict(id=0, t=None, q=None, tag=None, params=[])]
         nmod = sum(len(g["models"]) for g in groups)
-        if len(runs) * nsteps * nmod <= max_positions and (mode == "exposure" or 2 <= len(runs) <= 4):
-            return dict(mode=mode, groups=groups, nsteps=nsteps, params=params, runs=runs)
+        if len(runs) * nsteps * nmod <= max_positions and (mode == "exposure" or 2 <= len(runs) <= (8 if mode == "obs_seq" else 4)):
+            sc = dict(mode=mode, groups=groups, nsteps=nsteps, params=params, runs=runs)
+            if pmode != "product":
+                sc["pmode"] = pmode
+            if r.random() < 0.3:
+                sc["seed"] = r.randrange(1, 1000)       # pipeline_seed: the run goes through set_random_seed's try/finally
+            return sc
 
 
-def cases_of_scenario(r, sc, cls_cycle, extra=True):
-    """One case per (run, step, model) - enabled or not - plus no-fault and multi-fault cases."""
+def cases_of_scenario(r, sc, cls_cycle, extra=True, entry="run_mode", outputs=False, every=1):
+    """One case per (run, step, model) - enabled or not - plus no-fault and multi-fault cases.
+    `every` > 1 keeps every n-th position only (the entry-point matrix repeats the scenario shapes)."""
     cases = []
+    base = dict(sc, entry=entry, outputs=outputs)
+    seq = sc["mode"] in ("exposure", "obs_seq")
     positions = [(run["id"], s, m["key"]) for run in sc["runs"] for s in range(sc["nsteps"])
                  for g in sc["groups"] for m in g["models"]]
-    for (rid, s, k) in positions:
+    off = r.randrange(every)
+    for i, (rid, s, k) in enumerate(positions):
         if r.random() < 0.3:          # keep the class sequence from aligning with the pipeline's period
             next(cls_cycle)
         c = next(cls_cycle)
+        if every > 1 and i % every != off:
+            continue
+        if entry == "cli" and c == "KeyboardInterrupt":
+            c = "BaseProbeError"      # click reports Ctrl-C as click.Abort (chained): the command line's convention, not pyxel's
         f = dict(run=rid, step=s, key=k, cls=c, msg=f"boom-r{rid}-s{s}-k{k}")
-        cases.append(dict(sc, faults=[f], scheduler=r.choice(["threads", "single-threaded"])))
+        case = dict(base, faults=[f], scheduler=r.choice(["threads", "single-threaded"]))
+        if seq and r.random() < 0.15:
+            case["chained"] = True      # raised while another exception is being handled
+        if sc["mode"] == "exposure" and entry in ("run_mode", "method") and r.random() < 0.3:
+            case["debug"] = True
+        cases.append(case)
     if extra:
-        cases.append(dict(sc, faults=[], scheduler="threads"))
+        cases.append(dict(base, faults=[], scheduler="threads"))
         for _ in range(2):
             fs = []
             for (rid, s, k) in r.sample(positions, min(len(positions), r.randrange(2, 4))):
-                fs.append(dict(run=rid, step=s, key=k, cls=next(cls_cycle), msg=f"multi-r{rid}-s{s}-k{k}"))
-            cases.append(dict(sc, faults=fs, scheduler=r.choice(["threads", "single-threaded"])))
+                c = next(cls_cycle)
+                if entry == "cli" and c == "KeyboardInterrupt":
+                    c = "BaseProbeError"
+                fs.append(dict(run=rid, step=s, key=k, cls=c, msg=f"multi-r{rid}-s{s}-k{k}"))
+            cases.append(dict(base, faults=fs, scheduler=r.choice(["threads", "single-threaded"])))
     return cases
 
 
-def calib_cases(r, cls_cycle, n_scen):
+def calib_cases(r, cls_cycle, n_scen, entries=("run_mode",), max_islands=1):
     cases = []
-    for _ in range(n_scen):
+    for i in range(n_scen):
         groups = gen_pipeline(r, max_models=3, min_groups=1) if r.random() < 0.7 else \
             [dict(name="charge_collection", models=[dict(name="m0x", enabled=True, key=0)])]
         for g in groups:
             for m in g["models"]:
                 m["enabled"] = True
+        entry = r.choice(list(entries))
+        islands = r.randrange(1, max_islands + 1)
         pop, evol = 7, r.choice([1, 2])
-        total = pop * (1 + evol)
+        init = pop * islands
+        total = init * (1 + evol)
         keys = [m["key"] for g in groups for m in g["models"]]
-        ns = [0, r.randrange(1, pop), pop + r.randrange(0, pop), total]      # initial x2, evolution 1, lazy
+        ns = [0, r.randrange(1, init), init + r.randrange(0, init)]      # initial population x2, evolution 1
         if evol == 2:
-            ns.append(2 * pop + r.randrange(0, pop))
+            ns.append(2 * init + r.randrange(0, init))
+        if entry in ("run_mode", "method", "deprecated"):
+            ns.append(total)       # the lazily recomputed champion data (pyxel.run never computes it)
         for n in ns:
             k = r.choice(keys)
             f = dict(run=n, step=0, key=k, cls=next(cls_cycle), msg=f"boom-e{n}-k{k}")
-            cases.append(dict(mode="calib", groups=groups, nsteps=1, params=[], pop=pop, evolutions=evol,
+            cases.append(dict(mode="calib", entry=entry, outputs=(r.random() < 0.4), groups=groups, nsteps=1, params=[],
+                              pop=pop, evolutions=evol, islands=islands,
                               runs=[dict(id=i, t=None, q=None, tag=None, params=[]) for i in range(total + 1)],
                               faults=[f], scheduler="threads"))
     return cases
 
 
+def entry_matrix(ctx, r, cyc, scale=1):
+    """Every public entry point that starts a simulation x with/without outputs x every mode (round 2)."""
+    cases = []
+    n = ctx.budget(1, 2) * scale
+    for mode, cap in (("exposure", 12), ("obs_seq", 20)):
+        for entry in ENTRIES:
+            for outputs in (False, True):
+                if entry == "run_mode" and not outputs:
+                    continue            # that is the round-1 stream
+                for _ in range(n):
+                    cases += cases_of_scenario(r, scenario(r, mode, cap, entry), cyc, entry=entry, outputs=outputs,
+                                                every=ctx.budget(2, 1))
+    # dask: pyxel.run without outputs computes nothing but the first run, so there is nothing to surface
+    dask_cases = []
+    for entry, outputs in (("run_mode", True), ("method", False), ("method", True), ("deprecated", False),
+                           ("deprecated", True), ("run_file", True), ("cli", True)):
+        for _ in range(n):
+            dask_cases += cases_of_scenario(r, scenario(r, "obs_dask", 16, entry), cyc, entry=entry, outputs=outputs,
+                                            every=ctx.budget(2, 1))
+    cases += dask_cases
+    # debug mode: a model returns but leaves a bucket that the capture after it cannot read; sometimes a
+    # model raises at another position too (whichever comes first in execution order decides)
+    for entry in ("run_mode", "method"):
+        for _ in range(n):
+            sc = scenario(r, "exposure", 10)
+            positions = [(s, m["key"]) for s in range(sc["nsteps"]) for g in sc["groups"] for m in g["models"]]
+            for (s, k) in r.sample(positions, min(len(positions), ctx.budget(4, 10))):
+                fs = [dict(run=0, step=s, key=k, cls="ValueError", msg="corrupt", corrupt=True)]
+                if r.random() < 0.4:
+                    s2, k2 = r.choice(positions)
+                    if (s2, k2) != (s, k):
+                        fs.append(dict(run=0, step=s2, key=k2, cls=next(cyc), msg=f"boom-r0-s{s2}-k{k2}"))
+                cases.append(dict(sc, entry=entry, outputs=False, debug=True, faults=fs, scheduler="threads"))
+    # the clean-up step of pyxel.run's finally block fails on top of the model's failure
+    for mode, cap in (("exposure", 8), ("obs_seq", 12)):
+        for entry in ("run_file", "cli"):
+            for c in cases_of_scenario(r, scenario(r, mode, cap), cyc, entry=entry, outputs=True, every=ctx.budget(2, 1)):
+                cases.append(dict(c, cleanup_fails=True))
+    return cases
+
+
+def exhaustive_small(ctx):
+    """Thorough tier: one small pipeline, EVERY entry point x outputs x {exposure, sequential observation} x class x
+    position of an enabled model (small-scope exhaustive enumeration)."""
+    groups = [dict(name="photon_collection", models=[dict(name="m0x", enabled=True, key=0), dict(name="m1x", enabled=False, key=1)]),
+              dict(name="charge_measurement", models=[dict(name="m2x", enabled=True, key=2)])]
+    cases = []
+    for mode in ("exposure", "obs_seq"):
+        params = [] if mode == "exposure" else [dict(kind="t", values=[121, 128])]
+        runs = make_runs(groups, params) if params else [dict(id=0, t=None, q=None, tag=None, params=[])]
+        sc = dict(mode=mode, groups=groups, nsteps=2, params=params, runs=runs)
+        for entry in ENTRIES:
+            for outputs in (False, True):
+                for cls in CLASSES:
+                    if entry == "cli" and cls == "KeyboardInterrupt":
+                        continue
+                    for run in runs:
+                        for st in range(2):
+                            for k in (0, 2):
+                                f = dict(run=run["id"], step=st, key=k, cls=cls, msg=f"x-r{run['id']}-s{st}-k{k}")
+                                cases.append(dict(sc, entry=entry, outputs=outputs, faults=[f], scheduler="threads"))
+    return cases
+
+
+def widen_schedulers(ctx, r, cases):
+    """dask's process pool for some of the dask cases (start-up cost: seconds per case)."""
+    idx = [i for i, c in enumerate(cases) if c["mode"] == "obs_dask"]
+    for i in r.sample(idx, min(len(idx), ctx.budget(4, 40))):
+        cases[i] = dict(cases[i], scheduler="processes")
+
+
+def corpus_cases():
+    """Minimised past failures and the shapes of the seeded / repaired defects: run first."""
+    d = core.VERIF / "harness" / "corpus" / "C09"
+    return [json.loads(f.read_text()) for f in sorted(d.glob("*.json"))] if d.exists() else []
+
+
 def gen_cases(ctx: Ctx, salt="cases", scale=1):
     r = ctx.rng(salt)
     cyc = itertools.cycle(CLASSES)
-    cases = []
-    n_exp = ctx.budget(6, 12) * scale
-    n_seq = ctx.budget(8, 16) * scale
-    n_dask = ctx.budget(5, 10) * scale
+    cases = corpus_cases() if salt == "cases" else []
+    n_exp = ctx.budget(5, 12) * scale
+    n_seq = ctx.budget(6, 16) * scale
+    n_dask = ctx.budget(3, 10) * scale
     for _ in range(n_exp):
         cases += cases_of_scenario(r, scenario(r, "exposure", 18), cyc)
     for _ in range(n_seq):
         cases += cases_of_scenario(r, scenario(r, "obs_seq", ctx.budget(36, 60)), cyc)
     for _ in range(n_dask):
         cases += cases_of_scenario(r, scenario(r, "obs_dask", ctx.budget(24, 48)), cyc)
-    if not ctx.quick:
+    cases += entry_matrix(ctx, r, cyc, scale)
+    widen_schedulers(ctx, r, cases)
+    if ctx.quick:
+        cases += calib_cases(r, cyc, 2 * scale, entries=("run_file", "run_mode", "cli", "deprecated", "method"), max_islands=2)
+    else:
         cases += calib_cases(r, cyc, 3 * scale)
+        cases += calib_cases(r, cyc, 10 * scale, entries=ENTRIES, max_islands=3)
+        if salt == "cases":
+            cases += exhaustive_small(ctx)
     return cases
 
 
@@ -180,12 +334,14 @@ def emit_outcome(o) -> str:
     if o.get("returned"):
         return "Returned"
     if o.get("raised"):
+        chain = core.clist(f"({s_(x['cls'])}, {s_(x['msg'])})" for x in o["chain"])
         return (f"(Raised {s_(o['cls'])} {core.clist(s_(k) for k in o['mro'])} {s_(o['msg'])} "
-                f"{core.clist(s_(n) for n in o['notes'])} {len(o['chain'])})")
+                f"{core.clist(s_(n) for n in o['notes'])} {chain})")
     return "NotRun"
 
 
 MODE = {"exposure": "MExposure", "obs_seq": "MObsSeq", "obs_dask": "MObsDask", "calib": "MCalib"}
+ENTRY = {"run_mode": "ERunMode", "run_file": "ERunFile", "cli": "ECli", "method": "EMethod", "deprecated": "EDeprecated"}
 
 
 def emit_case(c, o) -> str:
@@ -196,11 +352,17 @@ def emit_case(c, o) -> str:
         for g in c["groups"])
     runs = core.clist("{| r_id := %d; r_params := %s |}" % (
         r["id"], core.clist(f"({s_(k)}, {s_(v)})" for k, v in r["params"])) for r in c["runs"])
-    faults = core.clist(f"({f['run']}, {f['step']}, {f['key']}, {f['cls']}, {s_(f['msg'])})" for f in c["faults"])
+    faults = core.clist(f"({f['run']}, {f['step']}, {f['key']}, {f['cls']}, {s_(f['msg'])})" for f in c["faults"]
+                        if not f.get("corrupt"))
+    corrupt = core.clist(f"({f['run']}, {f['step']}, {f['key']})" for f in c["faults"] if f.get("corrupt"))
     trace = core.clist(f"({a}, {b}, {s_(n)})" for a, b, n in o.get("trace", []))
-    pop = c.get("pop", 0)
+    pop = c.get("pop", 0) * c.get("islands", 1)
     evals = pop * c.get("evolutions", 0)
-    return (f"{{| c_mode := {MODE[c['mode']]}; c_pl := {pl}; c_nsteps := {c['nsteps']}; c_runs := {runs}; "
+    return (f"{{| c_mode := {MODE[c['mode']]}; c_entry := {ENTRY[c.get('entry', 'run_mode')]}; "
+            f"c_outputs := {core.cbool(bool(c.get('outputs')))}; "
+            f"c_cleanup_fails := {core.cbool(bool(c.get('cleanup_fails')))}; "
+            f"c_chained := {core.cbool(bool(c.get('chained')))}; c_debug := {core.cbool(bool(c.get('debug')))}; "
+            f"c_corrupt := {corrupt}; c_pl := {pl}; c_nsteps := {c['nsteps']}; c_runs := {runs}; "
             f"c_faults := {faults}; c_pop := {pop}; c_evals := {evals}; o_call := {emit_outcome(o['call'])}; "
             f"o_load := {emit_outcome(o['load'])}; o_trace := {trace} |}}")
 
@@ -218,13 +380,30 @@ def emit_file(pairs) -> str:
 
 
 def slim(c):
-    return {k: c[k] for k in ("mode", "groups", "nsteps", "params", "runs", "faults", "scheduler", "pop", "evolutions")
+    return {k: c[k] for k in ("mode", "entry", "outputs", "debug", "cleanup_fails", "chained", "pmode", "seed", "groups", "nsteps",
+                              "params", "runs", "faults", "scheduler", "pop", "evolutions", "islands")
             if k in c}
+
+
+def first_fault(c):
+    """The injected fault that is met first (sequential modes: execution order; otherwise the first listed)."""
+    if c["mode"] in ("exposure", "obs_seq"):
+        for run in c["runs"]:
+            for st in range(c["nsteps"]):
+                for g in c["groups"]:
+                    for m in g["models"]:
+                        if not m.get("enabled", True):
+                            continue
+                        for f in c["faults"]:
+                            if (f["run"], f["step"], f["key"]) == (run["id"], st, m["key"]):
+                                return f
+        return {}
+    return c["faults"][0] if c["faults"] else {}
 
 
 def to_violation(c, o, code) -> Violation:
     clause = CLAUSE.get(code, f"code{code}")
-    f = c["faults"][0] if c["faults"] else {}
+    f = first_fault(c)
     seen = o["call"] if o["call"].get("raised") else o["load"]
     observed = dict(call={k: v for k, v in o["call"].items() if k != "mro"},
                     load={k: v for k, v in o["load"].items() if k != "mro"},
@@ -232,22 +411,57 @@ def to_violation(c, o, code) -> Violation:
     for part in ("call", "load"):
         if isinstance(observed[part].get("msg"), str) and len(observed[part]["msg"]) > 600:
             observed[part]["msg"] = "..." + observed[part]["msg"][-600:]
-    sig = dict(clause=clause, mode=c["mode"])
+    sig = dict(clause=clause, mode=c["mode"], entry=c.get("entry", "run_mode"))
+    sig["injected"] = f.get("cls")
+    sig["stop_iteration"] = any(x["cls"] == "StopIteration" for x in c["faults"])
     if clause == "class_changed":
-        sig["injected"] = f.get("cls")
         sig["observed"] = seen.get("cls")
     expected = ("the call raises the injected exception: class %s, message containing str(exc), one note naming the "
                 "group and the model of the faulting call%s; no object is returned; no model call after the fault"
                 % (f.get("cls"), ", every key: value of the faulting run" if c["mode"] == "obs_seq" else ""))
-    what = (f"{c['mode']}: fault {f.get('cls')}({f.get('msg')!r}) injected at run {f.get('run')}, step {f.get('step')}, "
+    what = (f"{c['mode']} through {c.get('entry', 'run_mode')} ({'with' if c.get('outputs') else 'no'} outputs): "
+            f"fault {f.get('cls')}({f.get('msg')!r}) injected at run {f.get('run')}, step {f.get('step')}, "
             f"model key {f.get('key')} -> {clause}")
     return Violation(clause=clause, case=slim(c), observed=observed, expected=expected, what=what, sig=sig)
 
 
+def cost(c) -> float:
+    """Rough seconds of one case (a calibration starts pygmo, dask's process pool starts interpreters)."""
+    if c["mode"] == "calib":
+        return 5.0
+    if c.get("scheduler") == "processes":
+        return 3.0
+    if c["mode"] == "obs_dask":
+        return 0.5
+    return 0.15 + (0.1 if c.get("entry") in ("run_file", "cli") else 0.0)
+
+
+def spread(cases, chunk):
+    """A permutation of the case indices such that the contiguous chunks handed to the worker processes get
+    equal shares of the expensive cases."""
+    n = len(cases)
+    nchunks = (n + chunk - 1) // chunk
+    sizes = [min(chunk, n - k * chunk) for k in range(nchunks)]
+    buckets = [[] for _ in range(nchunks)]
+    load = [0.0] * nchunks
+    for i in sorted(range(n), key=lambda i: -cost(cases[i])):
+        k = min((k for k in range(nchunks) if len(buckets[k]) < sizes[k]), key=lambda k: load[k])
+        buckets[k].append(i)
+        load[k] += cost(cases[i])
+    return [i for b in buckets for i in sorted(b)]
+
+
 def correspondence(ctx: Ctx, cases, tag="c", confirm=True):
+    import time
+
     workers = 8
-    obs = core.run_driver(ctx, "c09", cases, workers=workers, timeout=1500,
-                          chunk=max(1, (len(cases) + 2 * workers - 1) // (2 * workers)))
+    t0 = time.time()
+    chunk = max(1, (len(cases) + 2 * workers - 1) // (2 * workers))
+    order = spread(cases, chunk)
+    obs_p = core.run_driver(ctx, "c09", [cases[i] for i in order], workers=workers, timeout=1500, chunk=chunk)
+    obs = [None] * len(cases)
+    for i, o in zip(order, obs_p):
+        obs[i] = o
     failed = [i for i, o in enumerate(obs) if "crash" in o or "driver_error" in o]
     if failed and confirm:
         # a worker process that died (machine load, timeout) takes its whole chunk with it: run those again, alone
@@ -266,7 +480,16 @@ def correspondence(ctx: Ctx, cases, tag="c", confirm=True):
     files, per = {}, 40
     for k in range(0, len(pairs), per):
         files[f"{tag}_{k // per:03d}"] = emit_file(pairs[k:k + per])
+    t1 = time.time()
     res = core.coq_eval_many(ctx, files, timeout=900, par=8)
+    secs = {}
+    for c, o in pairs:
+        key = c["mode"] + ("/processes" if c.get("scheduler") == "processes" else "")
+        n, t = secs.get(key, (0, 0.0))
+        secs[key] = (n + 1, t + o.get("secs", 0.0))
+    ctx.log(f"{len(pairs)} cases: implementation {t1 - t0:.1f}s wall, evaluation in Coq {time.time() - t1:.1f}s "
+            f"({len(files)} files); cpu seconds per kind: "
+            + ", ".join(f"{k}: {n} cases {t:.0f}s" for k, (n, t) in sorted(secs.items())))
     mism, viol = [], []
     for k, name in enumerate(sorted(files)):
         ok, evals, se = res[name]
@@ -281,12 +504,22 @@ def correspondence(ctx: Ctx, cases, tag="c", confirm=True):
     for c, o in (pairs if confirm else []):
         ctx.count("evaluations")
         ctx.dist("mode", c["mode"])
+        ctx.dist("entry", c.get("entry", "run_mode"))
+        ctx.dist("entry_x_outputs_x_mode", f"{c.get('entry', 'run_mode')}/{'out' if c.get('outputs') else 'noout'}/{c['mode']}")
+        if c["mode"] in ("obs_dask", "calib"):
+            ctx.dist("scheduler", c.get("scheduler"))
+        if c["mode"] == "calib":
+            ctx.dist("islands", c.get("islands", 1))
+        for flag in ("debug", "cleanup_fails", "chained"):
+            if c.get(flag):
+                ctx.dist("flags", flag)
         ctx.dist("faults", len(c["faults"]))
         for f in c["faults"]:
-            ctx.dist("class", f["cls"])
+            ctx.dist("class", "(corrupts a bucket)" if f.get("corrupt") else f["cls"])
         ctx.dist("outcome", "raised" if (o["call"].get("raised") or o["load"].get("raised")) else "returned")
         if c["mode"] != "exposure":
             ctx.dist("runs", len(c["runs"]) if c["mode"] != "calib" else "calibration")
+            ctx.dist("swept_parameters", f"{c.get('pmode', 'product')}:{len(c['params'])}")
         ctx.dist("steps", c["nsteps"])
     if mism and confirm:
         # a disagreement must be reproducible to count: run exactly those cases once more
@@ -304,7 +537,12 @@ def run(ctx: Ctx):
     ctx.trusted += TRUSTED
     ctx.assumptions += [
         "a model's behaviour is a function of (run, step, model): deterministic models on per-run copies of the processor",
-        "exceptions are Exception subclasses (BaseException such as KeyboardInterrupt is outside the property)",
+        "classes that are not Exception subclasses (KeyboardInterrupt, SystemExit, custom BaseException) must propagate with "
+        "class and message and stop the run; the group/model and parameter notes are only due for Exception subclasses "
+        "(the handlers are `except Exception`)",
+        "the command line reports KeyboardInterrupt as click.Abort (click's convention): not injected through `pyxel run`",
+        "a StopIteration raised while the islands of a calibration are created surfaces as RuntimeError('generator raised "
+        "StopIteration') with the original as its cause (PEP 479, tqdm iterator): accepted when the original is in the chain",
         "Python >= 3.11 (add_note exists); dask and pygmo error transport as stated in the two Section hypotheses",
     ]
     gen = {}
@@ -328,13 +566,16 @@ def record(ctx, mism, viol, pairs):
     distinct = set()
     for c, o in pairs:
         if c["faults"]:
-            distinct.add(json.dumps([c["mode"], c["groups"], c["nsteps"], c["params"], c["faults"]], sort_keys=True))
+            distinct.add(json.dumps([c["mode"], c.get("entry"), c.get("outputs"), c.get("cleanup_fails"), c.get("chained"),
+                                     c["groups"], c["nsteps"], c["params"], c["faults"]], sort_keys=True))
     ctx.cov["distinct_nontrivial"] = ctx.cov.get("distinct_nontrivial", 0) + len(distinct)
-    ctx.cov["rule"] = ("one case = one run of pyxel.run_mode on a generated pipeline (2-4 groups, 1-3 models each, some "
-                       "disabled; 1-3 readouts; observation with 2-4 runs over 1-2 swept parameters) with faults injected "
-                       "at chosen (run, step, model) positions; every position of every scenario is used once; "
-                       "non-trivial = at least one injected fault; distinct = distinct (mode, pipeline, steps, "
-                       "parameters, faults)")
+    ctx.cov["rule"] = ("one case = one simulation started through one entry point (pyxel.run_mode, pyxel.run(file), the pyxel "
+                       "run command, a method of the mode object, a deprecated pyxel.*_mode function), with or without outputs, on a "
+                       "generated pipeline (2-4 groups, 1-3 models each, some disabled; 1-3 readouts; observation with 2-8 "
+                       "runs over 1-3 swept parameters, product or sequential) with faults injected at chosen (run, step, model) "
+                       "positions; in the run_mode stream every position of every scenario is used once, in the entry-point "
+                       "matrix every second one; non-trivial = at least one injected fault; distinct = distinct (mode, entry, "
+                       "outputs, flags, pipeline, steps, parameters, faults)")
     ctx.cov["traces_validated_against_impl"] = ctx.cov.get("traces_validated_against_impl", 0) + sum(
         1 for c, o in pairs if c["mode"] in ("exposure", "obs_seq"))
     ctx.cov["disagreements_checked"] = ctx.cov.get("disagreements_checked", 0) + len(mism)
@@ -345,6 +586,9 @@ def record(ctx, mism, viol, pairs):
                                       notes=o["call"].get("notes"), n_calls=o.get("n_trace"))))
     for c, o, code in viol:
         ctx.violations.append(to_violation(c, o, code))
+    (ctx.build / "violations.json").write_text(json.dumps(
+        [dict(code=code, clause=CLAUSE.get(code), case=slim(c), call=o["call"], load=o["load"]) for c, o, code in viol][:200],
+        indent=1))
     if mism:
         (ctx.build / "mismatches.json").write_text(json.dumps([dict(case=slim(c), observed=o) for c, o in mism][:20], indent=1))
     for c, o in mism[:1]:
@@ -367,8 +611,8 @@ def search(ctx: Ctx):
     more and larger scenarios."""
     ctx.log("searching for a concrete failing input (more scenarios, every position)")
     cases = gen_cases(ctx, salt="search", scale=2)
-    if ctx.quick:   # the quick stream has no calibration; the broken obligation may be about it
-        cases += calib_cases(ctx.rng("search-calib"), itertools.cycle(CLASSES), 1)
+    if ctx.quick:   # the quick stream has little calibration; the broken obligation may be about it
+        cases += calib_cases(ctx.rng("search-calib"), itertools.cycle(CLASSES), 5, entries=ENTRIES, max_islands=2)
     mism, viol, pairs = correspondence(ctx, cases, tag="s")
     for c, o, code in viol:
         ctx.violations.append(to_violation(c, o, code))
@@ -401,23 +645,37 @@ def replay(ctx: Ctx, rp: dict) -> int:
 META = dict(
     level_text=(
         "Coq theorems over an executable model of the error path of all four running modes (ModelGroup.run adding the "
-        "group/model note and re-raising, Processor over groups, exposure over steps, the sequential observation loop adding "
-        "the run's parameters, the dask path as eager first run + lazy cells, calibration as initial population + evolutions): "
-        "for every behaviour of the model functions - any fault position, class, number of faults - and any pipeline, "
-        "schedule and parameter space (induction over runs/steps/groups/models) the driver raises the original class and "
-        "message, carries the note naming the faulting group and model and every key: value of the faulting run, returns no "
-        "result, and makes exactly the calls up to the fault. The parallel and calibration theorems hold under two explicit "
-        "hypotheses about dask (compute surfaces a failing cell) and pygmo (the re-raised text contains the original). The "
-        "model is tied to the code by fault injection at every (run, step, model) position of generated scenarios: the "
-        "observed exception (type, MRO, message, notes), returned object and call log are compared with the model and judged "
-        "against the specification inside Coq; a translator re-checks on every run that every exception handler in the "
-        "anchored functions ends in a bare re-raise. That the implementation behaves like the model is established by this "
-        "correspondence, i.e. by testing."),
+        "group/model note and re-raising, Processor over groups, exposure over steps - also in debug mode, with the capture "
+        "step after every call -, the sequential observation loop adding the run's parameters, the dask path as eager first "
+        "run + lazy cells, calibration as initial population + evolutions) and of what lies between them and the caller of "
+        "every public entry point (pyxel.run_mode, pyxel.run(file) with its try/finally, the `pyxel run` command, the methods "
+        "of Exposure/Observation/Calibration, the deprecated pyxel.exposure_mode/observation_mode/calibration_mode): for every "
+        "behaviour of the model functions - any fault position, any class including KeyboardInterrupt/SystemExit/custom "
+        "BaseException, any number of faults - and any pipeline, schedule and parameter space (induction over "
+        "runs/steps/groups/models) the driver raises the original class and message, carries (for Exception subclasses) the "
+        "note naming the faulting group and model and every key: value of the faulting run, returns no result, and makes "
+        "exactly the calls up to the fault; any stack of except/finally/with constructs none of which can drop an exception "
+        "(handler ending in a bare raise, finally block not left by return/break/continue, non-suppressing context manager) "
+        "hands the exception to its caller - itself, or as the context of a clean-up failure - for any run-time behaviour of "
+        "the clean-up steps. The parallel and calibration theorems hold under two explicit hypotheses about dask (compute "
+        "surfaces a failing cell) and pygmo (the re-raised text contains the original). The model is tied to the code (a) by a "
+        "translator that on every run reads all 41 functions on the 37 paths from the entry points to a model call and "
+        "re-proves, over the regenerated tables, that every function exists, refers to the next one and contains no "
+        "construct that can drop an exception, and (b) by fault injection at every (run, step, model) position of generated "
+        "scenarios through every entry point, with and without outputs, in every mode: the observed exception (type, MRO, "
+        "message, notes, chain), returned object and call log are compared with the model and judged against the "
+        "specification inside Coq. That the implementation behaves like the model is established by this correspondence, "
+        "i.e. by testing."),
     level_note=(
-        "Trusted: Coq kernel + vm_compute; translator/c09.py; the correspondence harness and probes; CPython semantics of "
-        "add_note / bare raise / str(exc); dask and pygmo error transport (Section hypotheses, sampled). Calibration is "
-        "exercised only in the thorough tier (1 island, population 7, 1-2 evolutions). Model behaviour is assumed to be a "
-        "function of (run, step, model)."),
-    technique="Coq proof over a result-monad model of the four drivers + in-Coq correspondence/spec evaluation of fault injection",
+        "Trusted: Coq kernel + vm_compute; translator/c09.py (incl. its list of non-suppressing context managers) and the "
+        "hand-written path table (call edges through pygmo/dask are not checked); the correspondence harness and probes; "
+        "CPython semantics of add_note / bare raise / try-finally / PEP 479 / str(exc); dask and pygmo error transport "
+        "(Section hypotheses, sampled with the threaded, synchronous and process schedulers and 1-3 islands). The deprecated "
+        "observation path attaches no run parameters and, under dask.bag, drops a run whose model raises StopIteration (open "
+        "findings; the full statements are kept and refuted). `pyxel run` reports KeyboardInterrupt as click.Abort (not "
+        "injected there). pyxel.run on a dask observation without outputs computes nothing, so nothing can surface (not "
+        "generated). Model behaviour is assumed to be a function of (run, step, model)."),
+    technique="Coq proof over a result-monad model of the drivers, the entry points and the exception-dropping constructs + "
+              "regenerated path/construct tables + in-Coq correspondence/spec evaluation of fault injection",
     design_ref="DESIGN.md section 6, C09",
 )
